@@ -367,4 +367,4 @@ def contraction_adjoints(ctx, world):
             ctx.ob("A17", inst, None, loc, sample=f"{decided}/{total} decided; outside the model: {unknown}")
         else:
             ctx.ob("A17", inst, True, loc, sample=f"{decided}/{total} rank combinations decided")
-    ctx.floor("A17 adjoint helpers", n_rules, 4)
+    ctx.floor("A17 adjoint helpers", n_rules, 2)
